@@ -47,6 +47,10 @@ func newC02Auto(c *Ctx) *c02Auto {
 				if in.Pos().IsValid() {
 					a.byPos[in.Pos()] = in
 				}
+			case *ssa.Call, *ssa.TypeAssert:
+				if _, taken := a.byPos[in.Pos()]; in.Pos().IsValid() && !taken {
+					a.byPos[in.Pos()] = in
+				}
 			}
 		})
 	}
